@@ -188,11 +188,13 @@ def ref_tokenize(text):
 
 
 def corpus_declarations(repo):
-    """statement-level declarations of tests/fixtures/*.i, each as (tokens, context) with context 'top' or 'member'"""
+    """statement-level declarations of tests/fixtures/*.i and of the constructed corpus harness/data/relayout.i,
+    each as (tokens, context) with context 'top' or 'member'"""
     import glob
     import os
     out = []
-    for f in sorted(glob.glob(os.path.join(repo, "tests", "fixtures", "*.i"))):
+    own = os.path.join(os.path.dirname(os.path.dirname(os.path.abspath(__file__))), "harness", "data", "relayout.i")
+    for f in [own] + sorted(glob.glob(os.path.join(repo, "tests", "fixtures", "*.i"))):
         toks = ref_tokenize(open(f).read())
         # split into statements at ; (depth 0 inside the current braces), descending into namespace / class bodies
         def walk(ts, ctx):
